@@ -150,6 +150,37 @@ def translate_params(tables):
     return cps, dps
 
 
+def translate_ddict_hashset():
+    """DDict hash set (zstd_decompress.c): load-factor constants, the expand condition (as an expression over count/size) and the
+    probe step (the statements of the probe loop, in source order) -> Lean definitions."""
+    zd = read("lib/decompress/zstd_decompress.c")
+    consts = {}
+    for k in ("DDICT_HASHSET_MAX_LOAD_FACTOR_COUNT_MULT", "DDICT_HASHSET_MAX_LOAD_FACTOR_SIZE_MULT", "DDICT_HASHSET_TABLE_BASE_SIZE", "DDICT_HASHSET_RESIZE_FACTOR"):
+        m = re.search(r"#define\s+%s\s+(\d+)" % k, zd)
+        consts[k] = int(m.group(1)) if m else 0
+    add = func_body(zd, r"static\s+size_t\s+ZSTD_DDictHashSet_addDDict\s*\([^)]*\)\s*\{") or ""
+    add = re.sub(r"/\*.*?\*/", " ", add, flags=re.S)
+    m = re.search(r"if\s*\((.*?)\)\s*\{\s*FORWARD_IF_ERROR\(ZSTD_DDictHashSet_expand", add, re.S)
+    cond = "false"
+    if m:
+        e = " ".join(m.group(1).split())
+        e = e.replace("hashSet->ddictPtrCount", "count").replace("hashSet->ddictPtrTableSize", "size")
+        for k, v in consts.items():
+            e = e.replace(k, str(v))
+        if re.fullmatch(r"[\scountsize\d\*/\+\-\(\)!=<>]+", e):
+            cond = e.replace("!=", "≠").replace(">=", "≥").replace("<=", "≤")
+            cond = "decide (%s)" % cond
+    def probe(fname):
+        b = func_body(zd, r"ZSTD_DDictHashSet_%s\s*\([^)]*\)\s*\{" % fname) or ""
+        b = re.sub(r"/\*.*?\*/", " ", b, flags=re.S)
+        steps = re.findall(r"idx\s*\+\+\s*;|idx\s*&=\s*idxRangeMask\s*;", b)
+        expr = "idx"
+        for st in steps:
+            expr = "(%s + 1)" % expr if "++" in st else "(%s &&& mask)" % expr
+        return expr if steps else "idx"
+    return consts, cond, probe("emplaceDDict"), probe("getDDict")
+
+
 def lean_int(v):
     return "(%d)" % v if v < 0 else str(v)
 
@@ -211,6 +242,17 @@ def emit(tables, cps, dps):
     b += "def dparams : List PInfo := %s\n\n" % lean_list(dps, pinfo, per=1)
     b += "end ZstdVerif.Gen\n"
     files["Bounds.lean"] = b
+    consts, cond, pe, pg = translate_ddict_hashset()
+    h = hdr + "namespace ZstdVerif.Gen.DDictHS\n\n"
+    for k, v in consts.items():
+        h += "def %s : Nat := %d\n" % (k, v)
+    h += "\n/-- the condition under which ZSTD_DDictHashSet_addDDict expands the table (translated from the source expression) -/\n"
+    h += "def expandCond (count size : Nat) : Bool := %s\n" % cond
+    h += "\n/-- one step of the linear probe of ZSTD_DDictHashSet_emplaceDDict / _getDDict (statements in source order) -/\n"
+    h += "def probeNextEmplace (idx mask : Nat) : Nat := %s\n" % pe
+    h += "def probeNextGet (idx mask : Nat) : Nat := %s\n" % pg
+    h += "\nend ZstdVerif.Gen.DDictHS\n"
+    files["DDictHS.lean"] = h
     return files
 
 
